@@ -28,7 +28,7 @@ mutual
 def wfNode (S : Schema) : DNode → Bool
   | .inner s f m ks =>
     plainSid S s && S.isInner s && m.isEmpty && !f.new && !f.whenTrue && (!f.dflt || S.isNpCont s) && !S.isKey s
-      && (noKeys S ks).all (fun c => !S.isKey c.sid) && (keysOf S ks).all (·.isTerm)
+      && (noKeys S ks).all (fun c => !S.isKey c.sid) && (keysOf S ks).all (fun k => k.isTerm && !k.flags.dflt)
       && (S.isKind s .list || (keysOf S ks).isEmpty)
       && canonB S ks && wfL S ks
   | .term s f m _ => plainSid S s && S.isTerm s && m.isEmpty && !f.new && !f.whenTrue
